@@ -805,7 +805,13 @@ class C01(Oracle):
         if ctx.exc is not None or ctx.timeout:
             return
         w = ctx.world
-        for slot in sorted(ctx.entitled):
+        # every value this step touched, plus every value whose observation changed although the
+        # step was not entitled to change it (the display invariant is world-wide)
+        slots = set(ctx.entitled)
+        for i, (b, a_) in enumerate(zip(ctx.pre_all, ctx.post_all)):
+            if a_ is not None and a_.key() != b.key():
+                slots.add(i)
+        for slot in sorted(slots):
             o = ctx.post_all[slot]
             v = w.vals[slot]
             if o is None or o.kind == 'T':
@@ -1053,6 +1059,8 @@ class C13(Oracle):
                     ansistr=None if a_exc is None else '%s: %s' % (type(a_exc).__name__, a_exc))
             return
         shape = ops.result_shape(ctx.op)
+        if ctx.kind == 'applymatch' and s_res is None and a_res is None:
+            return   # the pattern has no such match: nothing was called
         if shape == 'value':
             pairs = [(s_res, a_res)]
         elif shape == 'values':
